@@ -477,8 +477,7 @@ def evaluate__ceiling_and_floor_functions(self: XPathFunction, context: ta.Conte
         arg = self.number_value(arg)
 
     try:
-        if math.isnan(arg) or math.isinf(arg):
-            assert isinstance(arg, (int, float, decimal.Decimal))
+        if isinstance(arg, float) and (math.isnan(arg) or math.isinf(arg)):
             return arg
 
         assert isinstance(arg, (int, float, decimal.Decimal))
